@@ -1,5 +1,6 @@
 import LoraVerif.Model.Device
 import LoraVerif.Props.C05
+import LoraVerif.Lemmas.MacWFStep
 /-!
 # C07 — frames that are not accepted change nothing
 
@@ -18,7 +19,8 @@ JoinAccept whose MIC does not verify.
   deleting frames the REFERENCE rejects where they are heard (Class C receptions, frames in RX1/RX2 of
   uplinks and join attempts; rejection judged by `Spec/Freshness.lean` under the reference tracker of
   `Lemmas/Ghost.lean`, never by the model), the thinned history reaches the same state and produces
-  the same outputs at every remaining event (`step_mask_eq`, `step_drop_eq`).
+  the same outputs at every remaining event (`step_mask_eq`, `step_drop_eq`); conversely
+  (`history_rejected_insertable`) rejected frames can be inserted anywhere into a running history.
 -/
 open Model Spec.Freshness
 
@@ -415,6 +417,91 @@ theorem history_rejected_invisible {σ} (g : Rng σ) (m : MacState) (rs : σ) (g
         exact ih'
 
 
+
+/-- a Class C reception returns in every well-formed state -/
+theorem step_rxc_returns {σ} (g : Rng σ) (m : MacState) (rs : σ) (v : RxView) (snr : Int) (mp : Nat) (hwf : MacWF m)
+    (hv : viewWF v = true) : ∃ m' out, step g (m, rs) (.rxc v snr mp) = .ok ((m', rs), out) := by
+  obtain ⟨rf, hrf, _⟩ := macRxcConfig_tot m hwf
+  obtain ⟨⟨o, m'⟩, hrx, _⟩ := macHandleRx_tot m v mp snr true hwf hv
+  refine ⟨m', .rxc rf o, ?_⟩
+  simp only [step, hrf, hrx, bind, Except.bind, pure, Except.pure]
+
+/-- **the converse: rejected frames can be INSERTED anywhere.**  If the thinned history runs, so
+does the history with the rejected frames present — to the same final state and random stream, with
+the same outputs at the events of the thinned history — from any well-formed state under valid
+events.  Together with `history_rejected_invisible`: the two runs of the pair exist together and
+agree. -/
+theorem history_rejected_insertable {σ} (g : Rng σ) (m : MacState) (rs : σ) (gh : Gh) (hr : GhRel m gh) (hwf : MacWF m)
+    (evs : List Ev) (hv : ∀ ev ∈ evs, evOk ev = true ∧ validEv m.region.id ev = true) (ds : List Del) (hl : Legal gh ds evs)
+    (ms' : MacState × σ) (outs' : List Out) (h : run g (m, rs) (thinEvs ds evs) = .ok (ms', outs')) :
+    ∃ outs, run g (m, rs) evs = .ok (ms', outs) ∧ thinOuts ds outs = outs' := by
+  induction evs generalizing m rs gh ds outs' with
+  | nil =>
+    have e : thinEvs ds [] = [] := by cases ds with | nil => rfl | cons d ds => cases d <;> rfl
+    rw [e] at h
+    refine ⟨outs', h, ?_⟩
+    have : outs' = [] := by unfold run at h; cases Except.pure_eq_ok h; rfl
+    subst this
+    cases ds with | nil => rfl | cons d ds => cases d <;> rfl
+  | cons ev rest ih =>
+    have hve := hv ev List.mem_cons_self
+    -- one kept (or masked) step, then the induction hypothesis
+    have keep : ∀ (ds' : List Del), Legal (ghStep gh ev) ds' rest →
+        ∀ outs', run g (m, rs) (ev :: thinEvs ds' rest) = .ok (ms', outs') →
+        ∃ o os, run g (m, rs) (ev :: rest) = .ok (ms', o :: os) ∧ outs' = o :: thinOuts ds' os := by
+      intro ds' hl' outs' h
+      unfold run at h
+      obtain ⟨⟨⟨m1, rs1⟩, o⟩, hstep, h⟩ := Except.bind_eq_ok h
+      obtain ⟨⟨ms2, os'⟩, hrest, h⟩ := Except.bind_eq_ok h
+      cases Except.pure_eq_ok h
+      have hk : Keeps m m1 := (step_safe g m rs ev hwf hve.2).elim hstep
+      have hr1 := step_ghRel g m m1 rs rs1 ev o gh hr hve.1 hstep
+      obtain ⟨os, hos, hth⟩ := ih m1 rs1 (ghStep gh ev) hr1 hk.1
+        (fun e he => by rw [hk.2.1]; exact hv e (List.mem_cons_of_mem _ he)) ds' hl' os' hrest
+      refine ⟨o, os, ?_, by rw [hth]⟩
+      simp only [run, hstep, hos, bind, Except.bind, pure, Except.pure]
+    cases ds with
+    | nil =>
+      obtain ⟨o, os, h1, h2⟩ := keep [] (by cases rest <;> trivial) outs' (by
+        have : thinEvs [] rest = rest := by cases rest <;> rfl
+        rw [this]; exact h)
+      refine ⟨o :: os, h1, ?_⟩
+      rw [h2]
+      have : thinOuts [] os = os := by cases os <;> rfl
+      rw [this]; rfl
+    | cons d ds =>
+      simp only [Legal] at hl
+      cases d with
+      | keep =>
+        obtain ⟨o, os, h1, h2⟩ := keep ds hl.2 outs' h
+        exact ⟨o :: os, h1, by rw [h2]; rfl⟩
+      | mask b1 b2 =>
+        simp only [thinEvs] at h
+        have h' : run g (m, rs) (ev :: thinEvs ds rest) = .ok (ms', outs') := by
+          unfold run at h ⊢
+          rw [step_mask_eq g m rs gh hr ev hve.1 b1 b2 hl.1] at h
+          exact h
+        obtain ⟨o, os, h1, h2⟩ := keep ds hl.2 outs' h'
+        exact ⟨o :: os, h1, by rw [h2]; rfl⟩
+      | drop =>
+        simp only [thinEvs] at h
+        cases ev with
+        | rxc v snr mp =>
+          have hvw : viewWF v = true := by
+            have := hve.2; simpa [validEv] using this
+          obtain ⟨m1, o, hstep⟩ := step_rxc_returns g m rs v snr mp hwf hvw
+          have e1 := (step_drop_eq g m m1 rs rs gh hr _ hve.1 hl.1 o hstep).1
+          rw [e1] at hstep
+          have hr1 := step_ghRel g m m rs rs _ o gh hr hve.1 hstep
+          obtain ⟨os, hos, hth⟩ := ih m rs _ hr1 hwf (fun e he => hv e (List.mem_cons_of_mem _ he)) ds hl.2 outs' h
+          refine ⟨o :: os, ?_, by simp only [thinOuts]; exact hth⟩
+          simp only [run, hstep, hos, bind, Except.bind, pure, Except.pure]
+        | joinAbp da nwk app => exact hl.1.elim
+        | setAdr on => exact hl.1.elim
+        | setDr dr => exact hl.1.elim
+        | joinOtaa fault rx1 rx2 mp1 mp2 => exact hl.1.elim
+        | uplink data fport conf fault rx1 rx2 mp1 mp2 => exact hl.1.elim
+
 /-! non-vacuity: a session; a replay in RX1, garbage between uplinks, a forged frame in RX1 and a
 JoinAccept in RX2 are deleted — same final state, same remaining outputs -/
 def lcg : Rng Nat := fun x => ((x * 1103515245 + 12345) / 65536, x * 1103515245 + 12345)
@@ -451,3 +538,4 @@ end C07
 #print axioms C07.step_mask_eq
 #print axioms C07.step_drop_eq
 #print axioms C07.history_rejected_invisible
+#print axioms C07.history_rejected_insertable
